@@ -1,6 +1,7 @@
 """C12 - Digital Metadata round-trip (DESIGN.md section 4, C12)."""
 from __future__ import annotations
 
+import copy
 import os
 import time
 
@@ -336,6 +337,23 @@ def check_read(res, tagf, what, got, model, keys, columns=None):
         if not M.values_equal(exp, v):
             tagf("read-wrong-value", "%s sample %d: got %r expected %r" % (what, int(k), _short(v), _short(exp)))
             return
+    # the caller does what it likes with a result (here: empties it); later reads must not be affected
+    for v in got.values():
+        scribble(v)
+
+
+def scribble(o):
+    """Destroy a caller-owned object in place (arrays zeroed, containers emptied)."""
+    if isinstance(o, dict):
+        for v in list(o.values()):
+            scribble(v)
+        o.clear()
+    elif isinstance(o, list):
+        for v in o:
+            scribble(v)
+        del o[:]
+    elif isinstance(o, np.ndarray) and o.flags.writeable and o.dtype.kind in "iufcb":
+        o[...] = 0
 
 
 def _short(v):
@@ -391,18 +409,23 @@ def run_case(case, visible_hook=None):
                                        r.read(ka[0], ka[0], method="ffill"), model, [ka[0]])
                 elif kind in ("w1", "wback"):
                     obj = {k: M.decode(v) for k, v in st_["data"].items()}
-                    exp = distribute(obj, 1)[0]
+                    exp = distribute(copy.deepcopy(obj), 1)[0]
                     w.write(IT(st_["k"]), obj)
+                    scribble(obj)  # the caller re-uses / empties its dictionary once the call has returned
                     model[st_["k"]] = normalise_obj(exp)
                 elif kind == "wd":
                     obj = {k: M.decode(v) for k, v in st_["data"].items()}
-                    per = distribute(obj, len(st_["ks"]))
+                    per = distribute(copy.deepcopy(obj), len(st_["ks"]))
                     w.write(TL(st_["ks"]), obj)
+                    scribble(obj)
                     for k, e in zip(st_["ks"], per):
                         model[k] = normalise_obj(e)
                 elif kind == "wl":
                     objs = [{k: M.decode(v) for k, v in dd.items()} for dd in st_["data"]]
+                    keep = copy.deepcopy(objs)
                     w.write(TL(st_["ks"]), objs)
+                    scribble(objs)
+                    objs = keep
                     for k, o in zip(st_["ks"], objs):
                         model[k] = normalise_obj(o)
                 elif kind == "dup":
